@@ -14,10 +14,12 @@ those returned values (so it also says that the model changes no other field) an
 namespace Ivg.Gen.Tie
 open Ivg Ivg.Num Ivg.Gen.Code Ivg.Ren
 
+tolerant
 /-- Go `x & 0x3f` as an index is the model's `% 64` of `Regs.get6/set6` -/
 theorem u8_and63_toNat (u : UInt8) : (u &&& 63).toNat = u.toNat % 64 := by
   rw [UInt8.toNat_and]; exact Nat.and_two_pow_sub_one_eq_mod _ 6
 
+tolerant
 /-- a Go array store at an index `< 64` is the model's `Regs.set6` -/
 theorem arrSet_and63 {T : Type} (v : Vector T 64) (u : UInt8) (x : T) :
     Go.arrSet v (Go.idx_u8 (u &&& 63)) x = Regs.set6 v u x := by
@@ -26,6 +28,7 @@ theorem arrSet_and63 {T : Type} (v : Vector T 64) (u : UInt8) (x : T) :
   ext j hj
   simp [Vector.getElem_setIfInBounds, Vector.getElem_set]
 
+tolerant
 /-- a Go array load at an index `< 64` is the model's `Regs.get6` -/
 theorem arrGet_and63 {T : Type} [Inhabited T] (v : Vector T 64) (u : UInt8) :
     Go.arrGet v (Go.idx_u8 (u &&& 63)) = Regs.get6 v u := by
@@ -35,28 +38,34 @@ theorem arrGet_and63 {T : Type} [Inhabited T] (v : Vector T 64) (u : UInt8) :
 
 variable (arc : ArcFn F32 F64) (posInf : F32) (z : Renderer F32 F64)
 
+tolerant
 /-- render.go `(*Renderer).CSel` (a read: no `Call`, the model reads the field) -/
 theorem renderer_CSel_code_tie : render_Renderer_CSel z.cSel = z.cSel := rfl
 
+tolerant
 /-- render.go `(*Renderer).NSel` -/
 theorem renderer_NSel_code_tie : render_Renderer_NSel z.nSel = z.nSel := rfl
 
+tolerant
 /-- render.go `(*Renderer).SetCSel` = `Renderer.step … (.setCSel v)` -/
 theorem renderer_SetCSel_code_tie (v : UInt8) :
     z.step arc posInf (.setCSel v) = ({ z with cSel := render_Renderer_SetCSel v }, []) := by
   simp only [Renderer.step, render_Renderer_SetCSel]
 
+tolerant
 /-- render.go `(*Renderer).SetNSel` = `Renderer.step … (.setNSel v)` -/
 theorem renderer_SetNSel_code_tie (v : UInt8) :
     z.step arc posInf (.setNSel v) = ({ z with nSel := render_Renderer_SetNSel v }, []) := by
   simp only [Renderer.step, render_Renderer_SetNSel]
 
+tolerant
 /-- render.go `(*Renderer).SetLOD` = `Renderer.step … (.setLOD l0 l1)` -/
 theorem renderer_SetLOD_code_tie (l0 l1 : F32) :
     z.step arc posInf (.setLOD l0 l1) =
       ({ z with lod0 := (render_Renderer_SetLOD l0 l1).1, lod1 := (render_Renderer_SetLOD l0 l1).2 }, []) := by
   simp only [Renderer.step, render_Renderer_SetLOD]
 
+tolerant
 /-- render.go `(*Renderer).SetNReg` = `Renderer.step … (.setNReg adj incr f)`; the Go result is `(nSel, nReg)` -/
 theorem renderer_SetNReg_code_tie (adj : UInt8) (incr : Bool) (f : F32) :
     z.step arc posInf (.setNReg adj incr f) =
@@ -65,9 +74,11 @@ theorem renderer_SetNReg_code_tie (adj : UInt8) (incr : Bool) (f : F32) :
   simp only [Renderer.step, render_Renderer_SetNReg, arrSet_and63]
   cases incr <;> rfl
 
+tolerant
 /-- render.go `positiveInfinity` (the `posInf` the driver passes to the model) -/
 theorem positiveInfinity_code_tie : G_render_positiveInfinity = F32.posInf := rfl
 
+tolerant
 /-- render.go `(*Renderer).Reset`: the fifteen fields the Go method writes (in field order: `scaleX, biasX, scaleY,
     biasY, viewBox, palette, lod0, lod1, cSel, nSel, prevSmoothType, prevSmoothPointX, prevSmoothPointY, cReg, nReg`)
     have the values of the model's `Renderer.reset` at `posInf = +Inf`, which is the `.reset` case of
@@ -83,6 +94,7 @@ theorem renderer_Reset_code_tie (vb : ViewBox F32) (pal : Palette) :
       renderer_recalcTransform_code_tie]
   rfl
 
+tolerant
 /-- … the `.reset` case of `Renderer.step` emits no rasteriser call and leaves the other fields (`r, disabled, fill`
     and the pen) unchanged. -/
 theorem renderer_Reset_code_tie_frame (vb : ViewBox F32) (pal : Palette) :
